@@ -224,7 +224,12 @@ func (c *Ctx) checkSanitizer(r *Report, fn *ssa.Function) {
 			r.Ok("C17.R2", fname, "success return on the unrestrictedIOs true edge", pos)
 		} else {
 			ok, why := c.validatedConcat(fn, v, ext, b)
-			r.Check(ok, "C17.R2", fname, "success return of validated name + extension", pos, why)
+			if !ok && strings.HasPrefix(why, "cannot constant-fold") {
+				// the validating predicate is written in a form the folder does not evaluate: no verdict
+				r.Undecided("C17.R2: %s (the accepted byte set of the validating predicate could not be computed)", why)
+			} else {
+				r.Check(ok, "C17.R2", fname, "success return of validated name + extension", pos, why)
+			}
 		}
 		kind := "validated"
 		if onUnrestricted {
